@@ -12,7 +12,7 @@ RULE = (
     "corpus; seeded models of 1-4 fields (annotated tensor fields over the context dimension alphabet, optional fields, plain int fields; base "
     "types np.ndarray, np.ndarray[Any, np.dtype[..]], npt.NDArray[..], torch.Tensor, jax.Array; validate_assignment on/off), each with 1-3 "
     "constructions with keywords in shuffled order (conforming / perturbed values, None for optional fields) followed by assignments; "
-    "class-definition-time dtype cross-check with matching and contradicting declared scalar types. non-trivial = distinct line with "
+    "class-definition-time dtype cross-check with matching and contradicting declared scalar types, also for two fields that share one annotation object; every construction judged by the oracle on the fields in declaration order. non-trivial = distinct line with "
     "at least one annotated field and one construction"
 )
 
@@ -75,9 +75,65 @@ def cases(tier, rng, run):
         for dt in NP_SCALARS:
             for base in ("npt", "nd"):
                 out.append(Case(f"PYD\tva=0\tF|x|{base}=0:{dt}|{c},0,a b", "classdef", {"cls": c, "dt": dt}))
+    # one annotation OBJECT (a type alias) behind two fields whose numpy base types declare different scalar types: each field's
+    # declared type is cross-checked on its own
+    from checks import ctxcommon
+
+    acc = ctxcommon.accepts()
+    for c in translate.CLASSES:
+        oks = [d for d in NP_SCALARS if acc(c, "0:" + d)]
+        bads = [d for d in NP_SCALARS if not acc(c, "0:" + d)]
+        if not oks:
+            continue
+        for base in ("npt", "nd"):
+            for second in [rng.choice(bads)] if bads else []:
+                out.append(Case(f"PYD\tva=0,al=1\tF|x|{base}=0:{oks[0]}|{c},0,a b\tF|y|{base}=0:{second}|{c},0,a b", "classdef2", {"want": "reject"}))
+                out.append(Case(f"PYD\tva=0,al=1\tF|x|{base}=0:{second}|{c},0,a b\tF|y|{base}=0:{oks[0]}|{c},0,a b", "classdef2", {"want": "reject"}))
+            out.append(Case(f"PYD\tva=0,al=1\tF|x|{base}=0:{oks[0]}|{c},0,a b\tF|y|{base}=0:{oks[-1]}|{c},0,a b\tF|z|nd|{c},0,a b", "classdef2", {"want": "ok"}))
     for _ in range(2500 if tier == "quick" else 40000):
-        out.append(Case(gen_line(rng), "gen"))
+        l = gen_line(rng)
+        if rng.random() < 0.3:
+            l = l.replace("\tva=", "\tal=1,va=", 1)
+        out.append(Case(l, "gen"))
     return out
+
+
+def _oracle_steps(case):
+    """per operation of the line: 'conforms' / 'violates' / None — the documented rule on the fields in DECLARATION order"""
+    import oracle
+    from checks import ctxcommon
+
+    steps = case.line.split("\t")[2:]
+    fields = [s.split("|") for s in steps if s.startswith("F|")]
+    res = []
+    for st in steps:
+        if st.startswith("F|"):
+            continue
+        if not st.startswith("N|"):
+            res.append(None)
+            continue
+        vals = st.split("|")[2].split(";")
+        if len(vals) != len(fields):
+            res.append(None)
+            continue
+        ents, ok = [], True
+        for (_f, name, _base, spec), v in zip(fields, vals):
+            if spec == "-":
+                continue
+            cls, opt, shape = spec.split(",", 2)
+            if v == "N" and opt == "1":
+                continue
+            if not v.startswith("T,"):
+                ok = False
+                break
+            _t, code, dims = v.split(",")
+            ents.append(oracle.Ent(name, cls, None if shape == "<None>" else shape, code, tuple(int(x) for x in dims.split(".")) if dims else ()))
+        if not ok:
+            res.append(None)
+            continue
+        sp = oracle.spec_ctx({}, ents, ctxcommon.accepts())
+        res.append("violates" if sp[0] == "violates" else ("conforms" if sp[0] == "conforms" and sp[1]["ordered"] else None))
+    return res
 
 
 def judge(case, impl_out, spec):
@@ -91,7 +147,24 @@ def judge(case, impl_out, spec):
         if not ok and not impl_out.startswith("classdef reject dtype"):
             return f"a numpy array type whose declared scalar type {case.meta['dt']} contradicts {case.meta['cls']} is not refused with the dtype error at class definition: {impl_out!r}"
         return None
+    if case.tag == "classdef2":
+        if case.meta["want"] == "reject" and not impl_out.startswith("classdef reject dtype"):
+            return f"two fields share one annotation object; the declared scalar type of one of them contradicts the class, but the class definition gives {impl_out!r}"
+        if case.meta["want"] == "ok" and impl_out.startswith("classdef"):
+            return f"two fields share one annotation object; both declared scalar types are accepted by the class, but: {impl_out!r}"
+        return None
     parts = impl_out.split(" ## ")
+    if not impl_out.startswith("classdef"):
+        try:
+            want = _oracle_steps(case)
+        except Exception:  # noqa: BLE001
+            want = []
+        if len(want) == len(parts):
+            for k, (w, got) in enumerate(zip(want, parts)):
+                if w == "violates" and got.startswith("ok"):
+                    return f"construction #{k} violates the annotations of its fields (taken in declaration order, one context for the validation) but the model was built"
+                if w == "conforms" and not got.startswith("ok") and got != "pyd-validation":
+                    return f"construction #{k} conforms to the annotations of its fields (declaration order) but: {got!r}"
     for p in parts:
         if p.startswith("ok clean=0"):
             return "public data of the model exposes more than the declared fields"
